@@ -609,10 +609,14 @@ CLAIMS = {
          "Lean model tied exactly to the real pass (gv dce | gomlmodel dce) and theorems in Props/Dce.lean: dce_no_unused (every kept "
          "local and type-switch binding is read), dce_decl_before_use, prune_imports_exact, prune_funcs_closed. "
          "Name-test catalogue (gv c02names; validation, not proof): the string literals the middle/back end compares names with are re-read from the Rust on every run "
-         "(extract.c02_name_tests) and every kind of user-named item (25 kinds incl. methods, generic items, library-package items and package names) is compiled under "
+         "(extract.c02_name_tests) and every kind of user-named item (35 kinds incl. methods called statically / through a bound / through dyn, generic items, closure parameters, pattern binders, "
+         "functions as values, library-package items and package names) is compiled under "
          "every such name as-is, as prefix/suffix/infix and in the other case; Go.Check and the printer tie judge the real Go of each accepted program (oracle name-test). "
+         "Go-word dictionary of the same catalogue: every item kind is also compiled under every Go keyword, predeclared identifier and name the emitted runtime declares or relies on "
+         "(extract.c02_go_words: the specification's lists + helper / import / fixed parameter and field names re-read from go/runtime.rs and go/compile.rs); the printed text is parsed back by "
+         "goparse.rs, which refuses Go's 25 keywords in every identifier position (its own negative controls run with the catalogue), and Go.Check judges the AST. "
          "Known findings: closures in func-typed positions, nested type switch on one scrutinee, dyn-annotated struct literal; from the name-test catalogue: user functions "
-         "named like a builtin, types/packages whose name contains `TParam`, a library function called `main`, items called `main`/`main0`.",
+         "named like a builtin, types/packages whose name contains `TParam`, a library function called `main`, items called `main`/`main0`, functions / types / library variants named like a runtime helper function.",
     design_ref="§5 C02; DCE (C02/C09) — as built",
     note="Trusted: Go.Check as our reading of the Go spec (accepts the 73 corpus programs real Go accepted, rejects 058 as real Go did); "
          "goast dump; goparse.rs as our reading of Go's lexical grammar (the Lean side models Go's expression grammar, string-literal lexing and semicolon rule on the printer's own token pieces, not a character-level Go lexer: adjacency of tokens is proved for the expression subset (glue_free_expr) and checked per item by glueFree); compile.rs is modelled (Model/GoCompile.lean, exact tie `gv gocomp`): the scope rules of its "
